@@ -12,6 +12,7 @@
     The span API and events are an abstract log ([TNewSpan], [TEnter], [TExit], [TClose], [TEvent], ...).
     No proofs here. *)
 From Coq Require Export List NArith Bool.
+From Coq Require Strings.String.   (* not imported: `length` etc. stay the list ones *)
 Export ListNotations.
 Local Open Scope N_scope.
 
@@ -673,3 +674,36 @@ Definition run_future_steps (lets : list plocal) (th el : list astep)
 
 (** The ret / err events of gen_block. *)
 Inductive lvldef := LDSpan | LDConst (l : N).
+
+(** * RecordType::parse_from_ty and param_names: which parameters are recorded as `Value`
+
+    The decision is made on the *spelling* of the parameter's type: a path type whose LAST segment's identifier is in
+    TYPES_FOR_VALUE is `Value` -- whatever precedes it (`std::string::`, a leading `::`), whatever generic arguments
+    it carries (`Wrapping<u32>`) and under any number of `&` / `&mut`; every other type is `Debug`.  The pattern then
+    decides: identifier / `&pat` patterns keep the type's answer, bindings below a tuple / struct / tuple-struct
+    pattern and the receiver are always `Debug`, `_` binds nothing.  The table itself is read off expand.rs by the
+    translator (Gen_attr.gen_types_for_value) and passed in. *)
+Inductive tyspell :=
+| TyPath (refs : nat) (leading_colon : bool) (segs : list String.string) (generics : bool)
+| TyOther (refs : nat).          (* `impl Trait`, tuples, ... : `_ => RecordType::Debug` *)
+
+Definition in_table (table : list String.string) (s : String.string) : bool := existsb (String.eqb s) table.
+Definition ty_rtype (table : list String.string) (t : tyspell) : rtype :=
+  match t with
+  | TyPath _ _ segs _ =>
+      match rev segs with
+      | s :: _ => if in_table table s then RValue else RDebug
+      | [] => RDebug
+      end
+  | TyOther _ => RDebug
+  end.
+
+Inductive prule := PRKeep | PRDebug | PRNone.
+Definition pat_rule (k : patkind) : prule :=
+  match k with
+  | PIdent | PMut | PRefPat | PGeneric | PImplTrait => PRKeep
+  | PTuple | PStruct | PTupleStruct | PSelf => PRDebug
+  | PWild => PRNone
+  end.
+Definition rtype_of (table : list String.string) (t : tyspell) (k : patkind) : rtype :=
+  match pat_rule k with PRKeep => ty_rtype table t | _ => RDebug end.
